@@ -78,6 +78,7 @@ type caseInput struct {
 	Cast     []castSpec    `json:"cast"`
 	Ops      []opSpec      `json:"ops"`
 	Large    *largeSpec    `json:"large,omitempty"` // large-sign-dump-load-verify: no history, see runLarge
+	Foreign  *foreignSpec  `json:"foreign,omitempty"` // foreign-envelope: no history, see runForeign
 }
 
 // ---------------------------------------------------------------- keys
@@ -703,6 +704,69 @@ func ctrlLayout(r *lib.Rng, b byte) intoto.Layout {
 	l.Steps[0].ExpectedMaterials = [][]string{{"ALLOW", "src/" + c + "*"}, {"ALLOW", c + "*" + c}}
 	l.Inspect[0].Run = []string{"sh", "-c", "echo " + c}
 	return roundTrip(l)
+}
+
+// ---------------------------------------------------------------- an envelope made by another implementation (no model)
+
+// foreignSpec: a DSSE envelope written WITHOUT the library (encoding/json, crypto/*, a hand-written pre-authentication
+// encoding): the payload is an indented link document with blanks around it, in the standard or the URL-safe alphabet.
+// The signed bytes are the payload bytes exactly as they are: the library must verify the signature after loading the
+// file, and still after its own Dump and a second load.
+type foreignSpec struct {
+	Key     string `json:"key"`
+	Lead    string `json:"lead"`
+	Trail   string `json:"trail"`
+	URLSafe bool   `json:"urlsafe"`
+}
+
+func runForeign(sp foreignSpec) (impl, oracle string) {
+	oracle = "loaded:verifies|dumped-and-loaded:verifies"
+	kp := pool[sp.Key]
+	l := genLink(lib.NewRng(11))
+	var body []byte
+	for i := 0; ; i++ {
+		l.ByProducts = map[string]interface{}{"stdout": fmt.Sprintf("made elsewhere >>>???%d", i), "return-value": float64(0)}
+		doc, _ := json.MarshalIndent(l, "", "\t")
+		body = []byte(sp.Lead + string(doc) + sp.Trail)
+		if !sp.URLSafe || strings.ContainsAny(base64.URLEncoding.EncodeToString(body), "-_") || i > 64 {
+			break
+		}
+	}
+	typ := "application/vnd.in-toto+json"
+	pae := fmt.Sprintf("DSSEv1 %d %s %d %s", len(typ), typ, len(body), body)
+	raw := lib.SignRaw(kp.Signer, []byte(pae))
+	enc := base64.StdEncoding.EncodeToString(body)
+	if sp.URLSafe {
+		enc = base64.URLEncoding.EncodeToString(body)
+	}
+	file, _ := json.Marshal(map[string]interface{}{"payloadType": typ, "payload": enc,
+		"signatures": []map[string]string{{"keyid": kp.Pub.KeyID, "sig": base64.StdEncoding.EncodeToString(raw)}}})
+	path := filepath.Join(tmpDir, "foreign-envelope.json")
+	if err := os.WriteFile(path, file, 0o644); err != nil {
+		panic(err)
+	}
+	impl = lib.Recover(func() string {
+		verdict := func(md intoto.Metadata) string {
+			if err := md.VerifySignature(kp.Pub); err != nil {
+				return "REJECTED(" + err.Error() + ")"
+			}
+			return "verifies"
+		}
+		md, err := intoto.LoadMetadata(path)
+		if err != nil {
+			return "load error: " + err.Error()
+		}
+		out := "loaded:" + verdict(md)
+		if err := md.Dump(path); err != nil {
+			return out + "|dump error: " + err.Error()
+		}
+		md2, err := intoto.LoadMetadata(path)
+		if err != nil {
+			return out + "|second load error: " + err.Error()
+		}
+		return out + "|dumped-and-loaded:" + verdict(md2)
+	})
+	return impl, oracle
 }
 
 // ---------------------------------------------------------------- large metadata (no model, no cast: one key)
@@ -1514,11 +1578,19 @@ func runCase(in caseInput) (res runResult) {
 			nv := v
 			body := "(@nil N)"
 			pi := op.Payload
-			if op.Mut == "reindent" {
+			if strings.HasPrefix(op.Mut, "reindent") {
 				// the SAME content, serialised differently (another producer's whitespace)
 				pi = curPayload
 				b, _ := json.MarshalIndent(payloads[pi], "", "   ")
-				if w == "dsse" {
+				if op.Mut == "reindent-urlsafe-blanks" {
+					// ... with blanks around the document and, in an envelope, in the URL-safe alphabet: the signed bytes are
+					// the payload bytes exactly as they are, whatever the transport encoding
+					b = []byte("\n  " + string(b) + " \n")
+				}
+				if w == "dsse" && op.Mut == "reindent-urlsafe-blanks" {
+					nv.Payload = base64.URLEncoding.EncodeToString(b)
+					body = msgs.name(string(b))
+				} else if w == "dsse" {
 					nv.Payload = base64.StdEncoding.EncodeToString(b)
 					body = msgs.name(string(b))
 				} else {
@@ -1942,7 +2014,7 @@ func prune(in *caseInput) {
 	for i := range in.Ops {
 		switch in.Ops[i].Kind {
 		case "setpayload", "tamper", "addsig", "assign", "dupmember":
-			if in.Ops[i].Mut == "reindent" {
+			if strings.HasPrefix(in.Ops[i].Mut, "reindent") {
 				continue
 			}
 			p := in.Ops[i].Payload
@@ -2242,6 +2314,15 @@ func systematic(r *lib.Rng, all bool) []struct {
 			each(func(names []string) {
 				emit(w, kind, "payload-reserialized", names, func(in *caseInput) {
 					in.Ops = append(in.Ops, opSpec{Kind: "tamper", Mut: "reindent"}, opSpec{Kind: "sign", Key: 1})
+				})
+			})
+		}
+		for _, kind := range []string{"link", "layout"} {
+			kind := kind
+			each(func(names []string) {
+				emit(w, kind, "payload-reserialized-urlsafe-blanks", names, func(in *caseInput) {
+					in.Ops = append(in.Ops, opSpec{Kind: "tamper", Mut: "reindent-urlsafe-blanks"},
+						opSpec{Kind: "addsig", Key: len(in.Cast) - 1, Mut: "independent"}, opSpec{Kind: "dumpload"}, opSpec{Kind: "sign", Key: 1}, opSpec{Kind: "dumpload"})
 				})
 			})
 		}
@@ -2584,6 +2665,15 @@ func main() {
 				w.Put(lib.Case{Klass: "large-sign-dump-load-verify", Input: lib.MustJSON(caseInput{Wrapper: wr, Large: &sp}), Impl: impl, Oracle: oracle})
 			}
 		}
+		for _, key := range []string{"ed1", "ecdsa256", "rsa2048"} {
+			for _, ws := range [][2]string{{"", ""}, {"", "\n"}, {"\n  ", " \n"}, {"\t", "\r\n"}} {
+				for _, us := range []bool{false, true} {
+					sp := foreignSpec{Key: key, Lead: ws[0], Trail: ws[1], URLSafe: us}
+					impl, oracle := runForeign(sp)
+					w.Put(lib.Case{Klass: "foreign-envelope", Input: lib.MustJSON(caseInput{Wrapper: "dsse", Foreign: &sp}), Impl: impl, Oracle: oracle})
+				}
+			}
+		}
 		maxLen := 4
 		if thorough {
 			maxLen = 6
@@ -2607,6 +2697,13 @@ func main() {
 		if c.Input.Large != nil {
 			impl, oracle := runLarge(*c.Input.Large)
 			fmt.Printf("large link, dumped file of about %.1f MiB, wrapper %s, key ed1\n", float64(c.Input.Large.TenthsMiB)/10, c.Input.Large.Wrapper)
+			fmt.Println("impl:   " + impl)
+			fmt.Println("oracle: " + oracle)
+			return
+		}
+		if c.Input.Foreign != nil {
+			impl, oracle := runForeign(*c.Input.Foreign)
+			fmt.Printf("DSSE envelope made without the library: %+v\n", *c.Input.Foreign)
 			fmt.Println("impl:   " + impl)
 			fmt.Println("oracle: " + oracle)
 			return
